@@ -641,7 +641,13 @@ func (ls *LState) raiseError(level int, format string, args ...interface{}) {
 		message = fmt.Sprintf(format, args...)
 	}
 	if level > 0 {
-		message = fmt.Sprintf("%v %v", ls.where(level-1, true), message)
+		lv := level - 1
+		if ls.currentFrame != nil && ls.currentFrame.Fn.IsG {
+			// the running host function (error, or any function calling RaiseError) is not a level of
+			// its own: level 1 is its caller, level 2 the caller of that function, ...
+			lv++
+		}
+		message = fmt.Sprintf("%v %v", ls.where(lv, true), message)
 	}
 	if ls.reg.IsFull() {
 		// if the registry is full then it won't be possible to push a value, in this case, force a larger size
